@@ -17,6 +17,7 @@ func init() {
 			"CH-MAP: ScanUnit suffix table (bytes vs duration, m is minutes); PV-FIRST: duplicate label_format target / regexp capture rejected; PV-API: strings unquoted once",
 			"PV-API: no strconv.Unquote on LogQL source text (backquoted literals keep their carriage returns)",
 			"the identifier predicates of C20 (which names are labels); PV-API: the keyword table is consulted with the scanned text itself",
+			"PV-ROLE: lexer and parser are configured from the caller's ParseOptions.AllowDots; FE-CLASS: the scanner's identifier-character table; PV-API label regexps are compiled anchored whatever else uses the same text",
 		},
 		NotDecided: []string{"acceptance of the whole grammar / independence from layout, comments and redundant parentheses beyond the look-ahead rule", "and/or precedence inside label predicates", "numeric literal values, string unquoting (strutil.Unquote), duration/bytes literal values"},
 		Rules: func(r *Run) {
